@@ -39,6 +39,15 @@ def _prepare_bounded_build(gw, rl):
             'cbmc_extra': ['--unwind', '6']}
 
 
+def _disasm_build(gw, rl):
+    vmunit.vm_mirror(gw)
+    name = vmunit.build_disasm_unit(gw, rl)
+    return {'c_sources': [os.path.join(CONTRACTS, 'vm_disasm.c')], 'cxx_sources': [os.path.join(gw, name)], 'entry': 'h_disassemble',
+            'enforce': ['w_disassemble/c_disassemble'], 'dropped': DROPPED_VM + ['std::ostream is modelled as a sink'], 'min_obligations': 10,
+            # signed -> unsigned conversions (negative jump offset + size_t line) are well defined: no --conversion-check here
+            'cbmc_flags': ['--unwinding-assertions', '--no-malloc-may-fail', '--unwind', '3']}
+
+
 def _layout_build(gw, rl):
     n_layout, ops = vmunit.vm_mirror(gw)
     return {'c_sources': [os.path.join(gw, 'layout_c.c')], 'cxx_sources': [os.path.join(gw, 'layout_x.cpp')],
@@ -102,6 +111,8 @@ def groups():
     gs.append(Group('stepU_PREPARE_EXEC', STEP_PROPS, 'Theo::VM::executeSingle (VM/src/vm.cpp), case OpCode::PREPARE_EXEC', 'c_step_PREPARE_EXEC',
                     _prepare_bounded_build, timeout=900,
                     bounded='BOUNDED stand-in: frame size count <= 3, zero-fill loop unwound (--unwind 6 --unwinding-assertions) instead of its loop contract; catches changes of the loop shape that make the loop contract inapplicable'))
+    gs.append(Group('vmU_disassemble', ['C08', 'C18'], 'Theo::Program::disassemble (VM/src/program.cpp)', 'c_disassemble', _disasm_build, timeout=600,
+                    bounded='BOUNDED stand-in: a program of one instruction, line_info of capacity 2, --unwind 3'))
     gs.append(Group('step_ALL_unsliced', STEP_PROPS + ['C17', 'C18'], 'Theo::VM::executeSingle (VM/src/vm.cpp), unsliced, all 12 cases',
                     'c_step_any', _step_all_build, timeout=3600, tier='thorough', expect_loops=1,
                     note='cross-check: the general contract used as callee contract of execute holds on the unsliced body'))
